@@ -20,6 +20,14 @@ def specs_for(ctx):
         dict(D=3, target="abs", box="tight", noise="det", options=dict(max_fun_evals=120), seed=ctx.seed * 10 + 2),
         dict(D=2, target="outside", box="log", noise="det", options=dict(max_fun_evals=90), seed=ctx.seed * 10 + 3),
         dict(D=1, target="plateau", box="unb", noise="det", x0="absent", options=dict(max_fun_evals=50), seed=ctx.seed * 10 + 4),
+        # a deterministic target with a user-supplied noise_size (legal: it only feeds the GP noise prior)
+        dict(D=2, target="sphere", box="sym", noise="det", options=dict(max_fun_evals=60, noise_size=0.5), seed=ctx.seed * 10 + 5),
+        # a target that modifies its argument in place: the reported x must still be a point it was CALLED at
+        dict(D=2, target="sphere", box="sym", noise="det", mutate_arg=True, options=dict(max_fun_evals=60), seed=ctx.seed * 10 + 6),
+        dict(D=2, target="abs", box="log", noise="det", mutate_arg=True, options=dict(max_fun_evals=60), seed=ctx.seed * 10 + 7),
+        # budgets that end the run right after the initial design / in the first iterations
+        dict(D=2, target="plateau", box="sym", noise="det", options=dict(max_fun_evals=8), seed=ctx.seed * 10 + 8),
+        dict(D=3, target="sphere", box="sym", noise="det", options=dict(max_fun_evals=12, max_iter=1), seed=ctx.seed * 10 + 9),
     ]
     return specs + extra
 
